@@ -40,6 +40,8 @@ func runC07(c *Ctx) {
 		ruleEnsureExact(c, p, "C07.ensure")
 		ruleFieldBeforeUse(c, p, "C07.field-before-use")
 		ruleAutoStateful(c, p, "C07.auto-stateful")
+		ruleRowLoopBound(c, p, "C07.row-loop")
+		ruleStateMethodSet(c, p, "C07.state-methodset")
 		ruleAutoAdopts(c, p, "C07.auto-adopt")
 		ruleForwardAll(c, p, "C07.forward-all")
 		ruleReadFullSized(c, p, "C07.readfull-sized")
